@@ -10,8 +10,9 @@ From BB Require Import BN Brute SpaceFacts TrapFacts PercolateFacts AttractorFac
 PY_SPACE = "PyLib PySrcBase PySrc PySrcFacts"            # space_utils.is_subspace / intersect
 PY_KEY = "PyLib PySrcBase PySrcKey PySrcKeyFacts"         # space_utils.space_unique_key
 PY_PLACE = "PyLib PySrcBase PySrcPlace PySrcPlaceFacts"   # petri_net_translation.variable_to_place / place_to_variable
-PY_SD = "PyLib PyLibSd PySrcSd PySrcSdFacts"
-EXTRA_IMPORTS = {"C06": PY_SPACE, "C10": PY_PLACE, "C20": PY_KEY}
+PY_SD = "PyLib PyLibSd PySrcSdBase PySrcSd PySrcSdFacts"              # _sd_algorithms/expand_bfs.py, expand_dfs.py
+PY_TARGET = "PyLibSd PySrcSdBase PySrcSdTarget PySrcSdTargetFacts"   # _sd_algorithms/expand_to_target.py
+EXTRA_IMPORTS = {"C02": PY_SD, "C03": PY_SD, "C04": PY_SD, "C06": PY_SPACE + " " + PY_TARGET, "C10": PY_PLACE, "C20": PY_KEY}
 
 def imports_for(pid):
     extra = EXTRA_IMPORTS.get(pid)
@@ -101,7 +102,9 @@ Model: Diagram.expand_bfs / expand_dfs from Diagram.init (compared node by node,
 real expand_bfs / expand_dfs on every run).  Hierarchy = well-formed, all nodes trap spaces and
 percolation-closed, all expanded, Faithful (out-edges carry exactly the maximal trap spaces of the node,
 each once; at the root those fixing every source), root = percolation of the whole space.""",
- theorems=[("bfs_hierarchy", "bfs_hierarchy", None), ("dfs_hierarchy", "dfs_hierarchy", None),
+ theorems=[("source_expand_bfs", "py_expand_bfs_spec_all", "translator tie: the function GENERATED from the current text of biobalm/_sd_algorithms/expand_bfs.py (PySrcSd.v, regenerated on every run; embedding PyLibSd.v) equals the model's expand_bfs for every diagram, every limit and every fuel"),
+           ("source_expand_dfs", "py_expand_dfs_spec_all", "... and expand_dfs.py the model's expand_dfs"),
+           ("bfs_hierarchy", "bfs_hierarchy", None), ("dfs_hierarchy", "dfs_hierarchy", None),
            ("successors", "hierarchy_successors", "successors = percolations of the maximal trap spaces"),
            ("leaves", "hierarchy_leaves", "nodes without successors = minimal trap spaces of the network"),
            ("no_duplicates", "hierarchy_leaves_unique", "every space occurs once"),
@@ -125,7 +128,9 @@ strongly connected, pairwise disjoint sets of source_sccs_spec, every node it cr
 leaves every node expanded with the expanded leaves being exactly the minimal trap spaces (expand_scc_AllExpanded,
 expand_scc_LeafOK, expand_scc_MinFound) -- although the diagram it builds is not faithful (D15).  So every strategy of the
 statement has a theorem.""",
- theorems=[("bfs_complete", "bfs_complete", None), ("dfs_complete", "dfs_complete", None),
+ theorems=[("source_expand_bfs", "py_expand_bfs_spec_all", "translator tie: the function GENERATED from the current text of biobalm/_sd_algorithms/expand_bfs.py (PySrcSd.v, regenerated on every run; embedding PyLibSd.v) equals the model's expand_bfs for every diagram, every limit and every fuel"),
+           ("source_expand_dfs", "py_expand_dfs_spec_all", "... and expand_dfs.py the model's expand_dfs"),
+           ("bfs_complete", "bfs_complete", None), ("dfs_complete", "dfs_complete", None),
            ("leaves_are_min_traps", "hierarchy_leaves", None), ("min_traps_spec", "min_traps_b_spec", "the oracle for minimal trap spaces is exact"),
            ("min_trap_exists", "min_trap_exists", None), ("min_trap_closed", "min_trap_closed", None),
            ("min_trap_fixes_sources", "min_trap_fixes_sources", "why the source shortcut at the root loses no minimal trap space"),
@@ -169,7 +174,9 @@ expanded ordinary node carries exactly the maximal trap spaces of its space as m
 NoStubEdges: an unexpanded node has no out-edge; SWF: no space occurs twice.  step_Faithful_all extends
 this to every operation (skip nodes are excluded from Faithful by definition).  Continuing with BFS from any
 such state yields a Hierarchy (bfs_complete + the invariants), i.e. the same diagram up to node ids.""",
- theorems=[("run_invariants", "run_invariants", None), ("step_Faithful_all", "step_Faithful_all", None),
+ theorems=[("source_expand_bfs", "py_expand_bfs_spec_all", "translator tie: the function GENERATED from the current text of biobalm/_sd_algorithms/expand_bfs.py (PySrcSd.v, regenerated on every run; embedding PyLibSd.v) equals the model's expand_bfs for every diagram, every limit and every fuel"),
+           ("source_expand_dfs", "py_expand_dfs_spec_all", "... and expand_dfs.py the model's expand_dfs"),
+           ("run_invariants", "run_invariants", None), ("step_Faithful_all", "step_Faithful_all", None),
            ("step_NoStubEdges", "step_NoStubEdges", None), ("step_SWF", "step_SWF", None),
            ("expand_one_canonical", "expand_one_canonical", "what a single node expansion establishes, atomically"),
            ("expand_one_raise_unchanged", "expand_one_raise_unchanged", "a raised motif-limit error changes neither edges nor flags"),
@@ -232,6 +239,7 @@ forces it, the final trap space meets the target and every minimal trap space in
            ("source_is_subspace", "py_is_subspace_spec", "translator tie: the function generated from the CURRENT source of space_utils.is_subspace equals the model's subspace"),
            ("source_intersect", "py_intersect_spec", "... and space_utils.intersect the model's intersect"),
            ("control_after_any_plain_history", "control_after_plain_history_sound", "the whole call -- target-directed expansion of ANY plainly reached diagram, then succession control with either setting of skip_feedforward_successions -- reports only interventions that satisfy the property"),
+           ("source_expand_to_target", "py_expand_to_target_spec_all", "translator tie: the function GENERATED from the current text of biobalm/_sd_algorithms/expand_to_target.py (PySrcSdTarget.v) equals the model's expand_to_target"),
            ("control_after_ANY_history", "control_after_any_history_sound", "the same for EVERY history of operations, skip operations (skip_to_minimal, skip_remaining, minimal-space expansion with skipping) included: the reported interventions are sound on diagrams with skip nodes and parentless minimal-trap nodes"),
            ("control_sound_on_skipped_diagrams", "succession_control_sound_any", "succession_control on any diagram satisfying the all-history invariant AnyInv"),
            ("target_expansion_on_skipped_diagrams", "target_expansion_TargetExpanded_any", None),
